@@ -1,0 +1,117 @@
+//go:build verif
+
+package fsm
+
+// Contract of the engine's entry point for the three machines of this repository.
+// The transition tables, auto-transitions and callback bindings of a machine are ground facts
+// (machineTable) obtained by running its real constructor; the callbacks are called through
+// function values and resolved to the action contracts of the machine packages.
+//
+//@ import sif "github.com/lidofinance/dc4bc/fsm/state_machines/signing_proposal_fsm"
+//@ import internal "github.com/lidofinance/dc4bc/fsm/state_machines/internal"
+//@ import requests "github.com/lidofinance/dc4bc/fsm/types/requests"
+//
+// ---- signing machine
+//@ spec func sgnM(f *FSM) *sif.SigningProposalFSM = machOf(f, "signing_proposal_fsm")
+//@ spec func sgnStage(s State) bool = s == sif.StateSigningIdle || s == sif.StateSigningAwaitPartialSigns || s == sif.StateSigningPartialSignsCollected || s == sif.StateSigningPartialSignsAwaitCancelledByTimeout || s == sif.StateSigningPartialSignsAwaitCancelledByError
+//@ spec func sgnCancelled(s State) bool = s == sif.StateSigningPartialSignsAwaitCancelledByTimeout || s == sif.StateSigningPartialSignsAwaitCancelledByError
+// the round invariant of the signing stage
+//@ spec func invSgnTable(f *FSM) bool = machineTable(f, "signing_proposal_fsm", sgnM(f)) && sgnM(f).FSM == f && sgnM(f).payload != nil && sgnM(f).payload.SignatureProposalPayload != nil
+//@ spec func invSgnDkg(f *FSM) bool = wfDkgQ(sgnM(f).payload) && injDkg(dkgQ(sgnM(f).payload))
+//@ spec func invSgnState(f *FSM) bool = f.currentState == sif.StateSigningInitial || sgnStage(f.currentState)
+//@ spec func invSgnWf(f *FSM) bool = sgnStage(f.currentState) ==> wfSigning(sgnM(f)) && sgnQ(sgnM(f).payload) != nil
+//@ spec func invSgnInj(f *FSM) bool = sgnStage(f.currentState) ==> injSgn(sgnQ(sgnM(f).payload))
+//@ spec func invSgn(f *FSM) bool = invSgnTable(f) && invSgnDkg(f) && invSgnState(f) && invSgnWf(f) && invSgnInj(f)
+
+// common shape of every behaviour: a rejected event changes nothing, an accepted one reports the new state
+//@ spec func sgnRejectNoop(f *FSM) bool = f.currentState == old(f.currentState) && (sgnStage(old(f.currentState)) ==> signingViewsSame(sgnM(f)))
+
+//@ func (*FSM).Do behavior sgn.restart
+//@   safety C18
+//@   fvtargets SigningProposalFSM).actionSigningRestart
+//@   requires f != nil && invSgn(f) && event == sif.EventSigningRestart
+//@   ensures[C05.reject.sgn,C06.reject.sgn,C18.reject.sgn] err != nil ==> sgnRejectNoop(f)
+//@   ensures[C06.resp] err == nil ==> resp != nil && resp.State == f.currentState
+//@   ensures[C06.resp.reject,C05.resp.reject] resp != nil ==> resp.State == f.currentState
+//@   ensures[C06.inv.table] invSgnTable(f)
+//@   ensures[C06.inv.dkg] invSgnDkg(f)
+//@   ensures[C06.inv.state] invSgnState(f)
+//@   ensures[C06.inv.wf] invSgnWf(f)
+//@   ensures[C06.inv.inj] invSgnInj(f)
+//@   ensures[C06.restart.idle] err == nil <==> (old(f.currentState) == sif.StateSigningPartialSignsCollected || sgnCancelled(old(f.currentState)))
+//@   ensures[C06.restart.idle] err == nil ==> f.currentState == sif.StateSigningIdle && signingViewsSame(sgnM(f))
+
+//@ func (*FSM).Do behavior sgn.init
+//@   safety C18
+//@   fvtargets SigningProposalFSM).actionInitSigningProposal
+//@   requires f != nil && invSgn(f) && event == sif.EventSigningInit
+//@   ensures[C05.reject.sgn,C06.reject.sgn,C18.reject.sgn] err != nil ==> sgnRejectNoop(f)
+//@   ensures[C06.resp] err == nil ==> resp != nil && resp.State == f.currentState
+//@   ensures[C06.resp.reject,C05.resp.reject] resp != nil ==> resp.State == f.currentState
+//@   ensures[C06.inv.table] invSgnTable(f)
+//@   ensures[C06.inv.dkg] invSgnDkg(f)
+//@   ensures[C06.inv.state] invSgnState(f)
+//@   ensures[C06.inv.wf] invSgnWf(f)
+//@   ensures[C06.inv.inj] invSgnInj(f)
+//@   ensures[C05.handover.sgn] err == nil ==> old(f.currentState) == sif.StateSigningInitial && f.currentState == sif.StateSigningIdle
+
+//@ func (*FSM).Do behavior sgn.start
+//@   safety C18
+//@   fvtargets SigningProposalFSM).actionStartSigningProposal SigningProposalFSM).actionValidateSigningPartialSignsAwaitConfirmations
+//@   requires f != nil && invSgn(f) && event == sif.EventSigningStart
+//@   ensures[C05.reject.sgn,C06.reject.sgn,C18.reject.sgn] err != nil ==> sgnRejectNoop(f)
+//@   ensures[C06.resp] err == nil ==> resp != nil && resp.State == f.currentState
+//@   ensures[C06.resp.reject,C05.resp.reject] resp != nil ==> resp.State == f.currentState
+//@   ensures[C06.inv.table] invSgnTable(f)
+//@   ensures[C06.inv.dkg] invSgnDkg(f)
+//@   ensures[C06.inv.state] invSgnState(f)
+//@   ensures[C06.inv.wf] invSgnWf(f)
+//@   ensures[C06.inv.inj] invSgnInj(f)
+//@   ensures[C06.start.idle,C07.start.idle] err == nil ==> old(f.currentState) == sif.StateSigningIdle && isStartReq(args) && sp(sgnM(f)).BatchID == startReq(args).BatchID
+//@   ensures[C06.start.next] err == nil ==> f.currentState == sif.StateSigningAwaitPartialSigns || f.currentState == sif.StateSigningPartialSignsAwaitCancelledByTimeout || f.currentState == sif.StateSigningPartialSignsCollected || f.currentState == sif.StateSigningPartialSignsAwaitCancelledByError
+//@   ensures[C06.start.fresh] err == nil && f.currentState == sif.StateSigningAwaitPartialSigns ==> (forall k int :: k in sgnQ(sgnM(f).payload) ==> sgnQ(sgnM(f).payload)[k].Status == internal.SigningAwaitPartialSigns) && (forall k int :: (k in sgnQ(sgnM(f).payload)) == old(k in dkgQ(sgnM(f).payload)))
+
+//@ func (*FSM).Do behavior sgn.partial
+//@   safety C18
+//@   fvtargets SigningProposalFSM).actionPartialSignConfirmationReceived SigningProposalFSM).actionValidateSigningPartialSignsAwaitConfirmations
+//@   requires f != nil && invSgn(f) && event == sif.EventSigningPartialSignReceived
+//@   ensures[C05.reject.sgn,C06.reject.sgn,C18.reject.sgn] err != nil ==> sgnRejectNoop(f)
+//@   ensures[C06.resp] err == nil ==> resp != nil && resp.State == f.currentState
+//@   ensures[C06.resp.reject,C05.resp.reject] resp != nil ==> resp.State == f.currentState
+//@   ensures[C06.inv.table] invSgnTable(f)
+//@   ensures[C06.inv.dkg] invSgnDkg(f)
+//@   ensures[C06.inv.state] invSgnState(f)
+//@   ensures[C06.inv.wf] invSgnWf(f)
+//@   ensures[C06.inv.inj] invSgnInj(f)
+//@   ensures[C06.partial.accepted,C10.partial.accepted] err == nil ==> old(f.currentState) == sif.StateSigningAwaitPartialSigns && isPsReq(args) && old(psReq(args).ParticipantId in sgnQ(sgnM(f).payload)) && old(sgnQ(sgnM(f).payload)[psReq(args).ParticipantId].Status) == internal.SigningAwaitPartialSigns && psReq(args).BatchID == old(sp(sgnM(f)).BatchID)
+//@   ensures[C06.partial.next] err == nil ==> f.currentState == sif.StateSigningAwaitPartialSigns || f.currentState == sif.StateSigningPartialSignsAwaitCancelledByTimeout || f.currentState == sif.StateSigningPartialSignsCollected || f.currentState == sif.StateSigningPartialSignsAwaitCancelledByError
+//@   ensures[C06.exact,C07.exact] err == nil && !old(sgnExpired(sgnM(f))) ==> (f.currentState == sif.StateSigningPartialSignsCollected <==> (old(sgnFailed(sgnM(f))) <= old(sgnN(sgnM(f))) - old(sgnM(f).payload.Threshold) && old(sgnConfirmed(sgnM(f))) + 1 >= old(sgnM(f).payload.Threshold)))
+//@   ensures[C06.stale,C07.stale] isPsReq(args) && psReq(args).BatchID != old(sp(sgnM(f)).BatchID) ==> err != nil
+//@   ensures[C06.twice] isPsReq(args) && old(sgnStage(f.currentState)) && old(psReq(args).ParticipantId in sgnQ(sgnM(f).payload)) && old(sgnQ(sgnM(f).payload)[psReq(args).ParticipantId].Status) != internal.SigningAwaitPartialSigns ==> err != nil
+
+//@ func (*FSM).Do behavior sgn.error
+//@   safety C18
+//@   fvtargets SigningProposalFSM).actionConfirmationError SigningProposalFSM).actionValidateSigningPartialSignsAwaitConfirmations
+//@   requires f != nil && invSgn(f) && event == sif.EventSigningPartialSignError
+//@   ensures[C05.reject.sgn,C06.reject.sgn,C18.reject.sgn] err != nil ==> sgnRejectNoop(f)
+//@   ensures[C06.resp] err == nil ==> resp != nil && resp.State == f.currentState
+//@   ensures[C06.resp.reject,C05.resp.reject] resp != nil ==> resp.State == f.currentState
+//@   ensures[C06.inv.table] invSgnTable(f)
+//@   ensures[C06.inv.dkg] invSgnDkg(f)
+//@   ensures[C06.inv.state] invSgnState(f)
+//@   ensures[C06.inv.wf] invSgnWf(f)
+//@   ensures[C06.inv.inj] invSgnInj(f)
+//@   ensures[C06.error.accepted,C10.error.accepted] err == nil ==> old(f.currentState) == sif.StateSigningAwaitPartialSigns && isErrReq(args) && old(errReq(args).ParticipantId in sgnQ(sgnM(f).payload)) && old(sgnQ(sgnM(f).payload)[errReq(args).ParticipantId].Status) == internal.SigningAwaitPartialSigns
+//@   ensures[C06.cancelexact] err == nil && !old(sgnExpired(sgnM(f))) ==> (f.currentState == sif.StateSigningPartialSignsAwaitCancelledByError <==> old(sgnFailed(sgnM(f))) + 1 > old(sgnN(sgnM(f))) - old(sgnM(f).payload.Threshold))
+
+// every other event, and the internal ones, are refused by the signing machine
+//@ func (*FSM).Do behavior sgn.other
+//@   safety C18
+//@   fvtargets SigningProposalFSM).
+//@   requires f != nil && invSgn(f) && event != sif.EventSigningInit && event != sif.EventSigningStart && event != sif.EventSigningPartialSignReceived && event != sif.EventSigningPartialSignError && event != sif.EventSigningRestart
+//@   ensures[C05.reject.sgn,C06.reject.sgn,C18.reject.sgn] err != nil && sgnRejectNoop(f) && resp == nil
+//@   ensures[C06.inv.table] invSgnTable(f)
+//@   ensures[C06.inv.dkg] invSgnDkg(f)
+//@   ensures[C06.inv.state] invSgnState(f)
+//@   ensures[C06.inv.wf] invSgnWf(f)
+//@   ensures[C06.inv.inj] invSgnInj(f)
